@@ -25,14 +25,36 @@ using namespace glmx;
 #define PART(k) (!defined(GLMX_PART) || GLMX_PART == k)
 
 // ----------------------------------------------------------------------------------- value lattices per element type
-template <typename T> struct VL { static std::vector<T> make() {
+static bool g_thorough = false;   // set from "--tier thorough" before the operations are registered: the value lattices (and with them every domain) grow
+// thorough tier: the quick lattice first (same indices), then extra values.  8-bit types become COMPLETE (all 256 values, all 65536 pairs).
+template <typename T> struct VL { static size_t make_quick_size() { return 23; } static std::vector<T> make() {
   std::vector<T> v; typedef typename std::make_unsigned<T>::type U; const int w = sizeof(T) * 8; U m = (U)~(U)0;
   U pats[] = {0, 1, 2, 3, 4, 7, 8, 15, 16, 31, 100, (U)(m >> 1), (U)((m >> 1) + 1), m, (U)(m - 1), (U)((m >> 1) - 1), (U)((m >> 1) + 2), (U)(0x5555555555555555ull), (U)(0xAAAAAAAAAAAAAAAAull), (U)(0x0123456789ABCDEFull), (U)((U)1 << (w - 2)), (U)(m - 7), (U)(m - 99)};
-  for (U p : pats) v.push_back((T)p); return v; } };
-template <> struct VL<float> { static std::vector<float> make() { std::vector<float> v; for (uint64_t b : f32_spec_values()) v.push_back(f32(b)); return v; } };
-template <> struct VL<double> { static std::vector<double> make() { std::vector<double> v; for (uint64_t b : f64_spec_values()) v.push_back(f64(b)); return v; } };
-template <> struct VL<bool> { static std::vector<bool> make() { return {false, true}; } };
+  for (U p : pats) v.push_back((T)p);
+  if (g_thorough) { std::set<U> seen(std::begin(pats), std::end(pats)); auto add = [&](U p) { if (seen.insert(p).second) v.push_back((T)p); };
+    if (w == 8) { for (unsigned p = 0; p < 256; ++p) add((U)p); }
+    else { for (int i = 0; i < w; ++i) { U b = (U)((U)1 << i); add(b); add((U)(b + 1)); add((U)(b - 1)); add((U)(0 - b)); add((U)(0 - b - 1)); add((U)(b | (b >> 1))); }
+      for (U k = 5; k < 40; ++k) { add(k); add((U)(0 - k)); } for (U k : {(U)255, (U)256, (U)1000, (U)10000, (U)12345, (U)46340, (U)46341, (U)65535}) { add(k); add((U)(0 - k)); }
+      add((U)0x3333333333333333ull); add((U)0xCCCCCCCCCCCCCCCCull); add((U)0x0F0F0F0F0F0F0F0Full); add((U)0xF0F0F0F0F0F0F0F0ull); add((U)0x00FF00FF00FF00FFull); add((U)0xFEDCBA9876543210ull); add((U)0xDEADBEEFCAFEF00Dull); } }
+  return v; } };
+static inline void more_f32(std::vector<float>& v) { std::set<uint64_t> seen; for (float f : v) seen.insert(b32(f)); auto add = [&](float f) { if (seen.insert(b32(f)).second) v.push_back(f); if (seen.insert(b32(-f)).second) v.push_back(-f); };
+  for (int e : {-149, -140, -127, -126, -125, -100, -64, -32, -24, -23, -12, -8, -4, -3, -2, -1, 0, 1, 2, 3, 4, 7, 8, 12, 22, 23, 24, 25, 30, 31, 32, 33, 52, 53, 62, 63, 64, 100, 126, 127}) { float b = std::ldexp(1.0f, e); add(b); if (e >= -126) { add(b * 1.00000012f); add(b * 1.5f); add(b * 1.99999988f); add(b * 1.25f); } }
+  for (uint32_t mnt : {2u, 3u, 0x400000u, 0x7ffffeu, 0x555555u}) add(f32(mnt));
+  for (int k = 0; k <= 24; ++k) add(k + 0.5f); for (int k = 4; k <= 24; ++k) add((float)k);
+  for (float f : {0.2f, 0.25f, 0.3f, 0.4f, 0.6f, 0.666666687f, 0.7f, 0.75f, 0.8f, 0.9f, 1.1f, 1.57079637f, 0.785398185f, 6.28318548f, 10.f, 57.2957802f, 0.0174532924f, 127.f, 128.f, 1000.f, 32767.f, 32768.f, 65535.f, 1e-3f, 1e-5f, 1e-10f, 1e-30f, 1e5f, 1e10f, 1e30f, 88.7228394f, 88.72284f, -87.3365479f, 709.f}) add(f);
+  v.push_back(f32(0x7fa00000u)); v.push_back(f32(0xffffffffu)); }
+static inline void more_f64(std::vector<double>& v) { std::set<uint64_t> seen; for (double f : v) seen.insert(b64(f)); auto add = [&](double f) { if (seen.insert(b64(f)).second) v.push_back(f); if (seen.insert(b64(-f)).second) v.push_back(-f); };
+  for (int e : {-1074, -1060, -1023, -1022, -1021, -1000, -500, -149, -126, -64, -53, -52, -32, -24, -12, -8, -4, -3, -2, -1, 0, 1, 2, 3, 4, 7, 8, 12, 23, 24, 31, 32, 33, 51, 52, 53, 54, 62, 63, 64, 127, 128, 500, 1000, 1022, 1023}) { double b = std::ldexp(1.0, e); add(b); if (e >= -1022) { add(b * 1.0000000000000002); add(b * 1.5); add(b * 1.9999999999999998); add(b * 1.25); } }
+  for (uint64_t mnt : {2ull, 3ull, 0x8000000000000ull, 0xffffffffffffeull, 0x5555555555555ull}) add(f64(mnt));
+  for (int k = 0; k <= 24; ++k) add(k + 0.5); for (int k = 4; k <= 24; ++k) add((double)k);
+  for (double f : {0.2, 0.25, 0.3, 0.4, 0.6, 2.0 / 3, 0.7, 0.75, 0.8, 0.9, 1.1, 1.5707963267948966, 0.78539816339744828, 6.2831853071795862, 10., 57.295779513082323, 0.017453292519943295, 127., 128., 1000., 32767., 32768., 65535., 1e-3, 1e-5, 1e-10, 1e-30, 1e-300, 1e5, 1e10, 1e30, 1e300, 709.78271289338397, 709.782712893384, -745.13321910194122, 3.4028234663852886e38, 1.1754943508222875e-38, 16777217., 9007199254740993.}) add(f);
+  v.push_back(f64(0x7ff4000000000000ull)); v.push_back(f64(0xffffffffffffffffull)); }
+template <> struct VL<float> { static size_t make_quick_size() { return f32_spec_values().size(); } static std::vector<float> make() { std::vector<float> v; for (uint64_t b : f32_spec_values()) v.push_back(f32(b)); if (g_thorough) more_f32(v); return v; } };
+template <> struct VL<double> { static size_t make_quick_size() { return f64_spec_values().size(); } static std::vector<double> make() { std::vector<double> v; for (uint64_t b : f64_spec_values()) v.push_back(f64(b)); if (g_thorough) more_f64(v); return v; } };
+template <> struct VL<bool> { static size_t make_quick_size() { return 2; } static std::vector<bool> make() { return {false, true}; } };
 template <typename T> static const std::vector<T>& values() { static const std::vector<T> v = VL<T>::make(); return v; }
+// ternary operations sweep the first n3() values (the quick lattice, plus 96 more in the thorough tier): the cube of the whole thorough lattice is out of reach
+template <typename T> static size_t n3() { size_t q = VL<T>::make_quick_size(); return std::min(values<T>().size(), g_thorough ? q + 96 : q); }
 template <typename T> static inline T pick(uint64_t base, int lane, int salt) { const std::vector<T>& v = values<T>(); return v[(base + (uint64_t)lane * (17 + 12 * salt)) % v.size()]; }
 
 template <typename A> static inline bool same_bits(A a, A b) { return a == b; }
@@ -108,10 +130,11 @@ template <class OP, typename T, typename T3, int L, glm::qualifier Q, int SHAPES
 template <class OP, typename T, typename T3, glm::qualifier Q, int SH> static bool t3q(uint64_t i, uint64_t j, uint64_t l, Outcome& o) { return t3<OP, T, T3, 1, Q, SH>(i, j, l, o) && t3<OP, T, T3, 2, Q, SH>(i, j, l, o) && t3<OP, T, T3, 3, Q, SH>(i, j, l, o) && t3<OP, T, T3, 4, Q, SH>(i, j, l, o); }
 template <class OP, typename T, typename T3, int SH> static void op_t3(const Case& c, Outcome& o) { o.cls(0); g_checked = 0; g_dig = 0; struct G { Outcome& o; ~G() { if (!g_checked) o.nontrivial = false; o.dg(g_dig); } } g_{o}; if (!t3q<OP, T, T3, glm::highp, SH>(c.w[0], c.w[1], c.w[2], o)) return; if (!t3q<OP, T, T3, glm::lowp, SH>(c.w[0], c.w[1], c.w[2], o)) return; t3q<OP, T, T3, glm::mediump, SH>(c.w[0], c.w[1], c.w[2], o); }
 
+template <typename T> static Domain D3() { return range("VALUES3<" + std::to_string(n3<T>()) + ">", 0, n3<T>(), false); }
 template <typename T> static Domain D1() { return range("VALUES<" + std::to_string(values<T>().size()) + ">", 0, values<T>().size(), false); }
 template <class OP, typename T> static void R1(Engine& E, const char* tn) { Op& op = E.add(std::string(OP::name()) + "(v) <" + tn + "> L=1..4 x {highp,mediump,lowp}", op_u1<OP, T>); op.quick = {D1<T>()}; }
 template <class OP, typename T, typename T2, int SH> static void R2(Engine& E, const char* tn) { Op& op = E.add(std::string(OP::name()) + "(a,b) <" + tn + "> shapes vv" + ((SH & 1) ? ",vs" : "") + ((SH & 2) ? ",sv" : "") + ((SH & 4) ? ",v1" : "") + " L=1..4 x Q", op_b2<OP, T, T2, SH>); op.quick = {product("VALUES^2", {D1<T>(), D1<T2>()})}; }
-template <class OP, typename T, typename T3, int SH> static void R3(Engine& E, const char* tn) { Op& op = E.add(std::string(OP::name()) + "(a,b,c) <" + tn + "> shapes vvv" + ((SH & 1) ? ",vss" : "") + ((SH & 2) ? ",vvs" : "") + ((SH & 4) ? ",ssv" : "") + " L=1..4 x Q", op_t3<OP, T, T3, SH>); op.quick = {product("VALUES^3", {D1<T>(), D1<T>(), D1<T3>()})}; }
+template <class OP, typename T, typename T3, int SH> static void R3(Engine& E, const char* tn) { Op& op = E.add(std::string(OP::name()) + "(a,b,c) <" + tn + "> shapes vvv" + ((SH & 1) ? ",vss" : "") + ((SH & 2) ? ",vvs" : "") + ((SH & 4) ? ",ssv" : "") + " L=1..4 x Q", op_t3<OP, T, T3, SH>); op.quick = {product("VALUES3^3", {D3<T>(), D3<T>(), D3<T3>()})}; }
 
 // ======================================================================================== function tables
 DEF_FN(radians, BITS) DEF_FN(degrees, BITS) DEF_FN(sin, BITS) DEF_FN(cos, BITS) DEF_FN(tan, BITS) DEF_FN(asin, BITS) DEF_FN(acos, BITS) DEF_FN(atan, BITS) DEF_FN(sinh, BITS) DEF_FN(cosh, BITS) DEF_FN(tanh, BITS)
@@ -230,7 +253,7 @@ template <typename T> static void reg_float_nary(Engine& E, const char* tn) {
 template <typename T> static void reg_float_ternary(Engine& E, const char* tn) {
   R3<F_clamp, T, T, 1>(E, tn); R3<F_fclamp, T, T, 1>(E, tn); R3<F_mix, T, T, 2>(E, tn); R3<F_smoothstep, T, T, 4>(E, tn); R3<F_fma, T, T, 0>(E, tn); R3<F_equalEps, T, T, 2>(E, tn); R3<F_notEqualEps, T, T, 2>(E, tn);
   { Op& op = E.add(std::string("mix(x,y,bool) <") + tn + ">", op_t3<F_mix, T, bool, 2>); op.quick = {product("VALUES^2 x {false,true}", {D1<T>(), D1<T>(), D1<bool>()})}; }
-  { Op& op = E.add(std::string("abs/mix/equal/notEqual on all 9 matrix shapes <") + tn + ">", op_matrix<T>); Domain d = range("VALUES/3", 0, values<T>().size() / 3, false); op.quick = {product("sub-lattice^3", {d, d, d})}; }
+  { Op& op = E.add(std::string("abs/mix/equal/notEqual on all 9 matrix shapes <") + tn + ">", op_matrix<T>); Domain d = range("VALUES/3", 0, n3<T>() / 3, false); op.quick = {product("sub-lattice^3", {d, d, d})}; }
 }
 template <typename T> static void reg_float_ops(Engine& E, const char* tn) { R2<O_add, T, T, 7>(E, tn); R2<O_sub, T, T, 7>(E, tn); R2<O_mul, T, T, 7>(E, tn); R2<O_div, T, T, 7>(E, tn); Rmisc<T>(E, tn); }
 template <typename T> static void reg_int(Engine& E, const char* tn) {
@@ -246,6 +269,7 @@ template <typename T> static void reg_int(Engine& E, const char* tn) {
 }
 
 int main(int argc, char** argv) {
+  for (int i = 1; i + 1 < argc; ++i) if (std::string(argv[i]) == "--tier" && std::string(argv[i + 1]) == "thorough") g_thorough = true;
   Engine E; E.property = "C01";
   E.assumptions = {"libm is a function: the same argument gives the same result in the scalar and in the vector call", "signed 32/64-bit arithmetic whose exact result is not representable, division by zero, INT_MIN/-1 and out-of-range shift counts are outside every operator's domain (skipped)"};
 #if PART(0)
